@@ -50,6 +50,10 @@ def run_tasks(specs, seed, tier, procs=None):
     if len(specs) == 1 or procs == 1:
         return [_worker(s) for s in specs]
     ctx = mp.get_context("fork")
+    from pyvc import task as T
+    # shared count of natively confirmed violations: once a run has enough of them the rest is skipped (undecided)
+    T.CONFIRMED_COUNTER = ctx.Value("i", 0)
+    T.CAPS_ENABLED = not load_findings()
     with ctx.Pool(procs, maxtasksperchild=8) as pool:
         return pool.map(_worker, specs, chunksize=1)
 
